@@ -75,7 +75,42 @@ pub fn worlds(net: &Net, tier: Tier, idx: u64) -> Vec<World> {
         w.trav = Trav::Distance { model_unit: *mu };
         w.feat_dist_unit = *fu;
         w.init_dist = if k % 2 == 0 { 0.0 } else { 100.0 };
+        // the product aggregation: with one feature the product has a single factor, so every edge costs what it costs under
+        // the sum (with and without a surcharge on the first edge)
+        if full || (ui + k) % 2 == 0 {
+            let mut wm = w.clone();
+            wm.mul = true;
+            wm.w_dist = if k % 3 == 0 { 2.0 } else { 1.0 };
+            wm.surcharge = if k % 2 == 0 { vec![(0, 2.5)] } else { vec![] };
+            out.push(wm);
+        }
         out.push(w);
+    }
+    // the product aggregation over two features (no turn model, no surcharge): each edge costs the product of its weighted,
+    // rated changes of distance and time
+    for (ui, (su, du, tu, fdu, ftu, _)) in units.iter().enumerate() {
+        for (wi, (wd, wt, rd, rt)) in [(1.0, 1.0, Rate::Raw, Rate::Raw), (0.5, 2.0, Rate::Factor(0.5), Rate::Factor(2.0))].iter().enumerate() {
+            if !(ui == 0 || ui == 3) || (!full && (ui + wi + k) % 4 != 0) {
+                continue;
+            }
+            out.push(World {
+                net: net.clone(),
+                trav: Trav::Speed { speed_unit: *su, dist_unit: *du, time_unit: *tu, speeds: speeds.clone() },
+                feat_dist_unit: *fdu,
+                feat_time_unit: *ftu,
+                init_dist: 0.0,
+                init_time: 0.0,
+                turn: None,
+                w_dist: *wd,
+                w_time: *wt,
+                r_dist: rd.clone(),
+                r_time: rt.clone(),
+                surcharge: vec![],
+                turn_surcharge: vec![],
+                mul: true,
+                term: crate::world::sw::Term::Unlimited,
+            });
+        }
     }
     out
 }
